@@ -453,7 +453,7 @@ def gen_big(tier):
             return {a: b * f for a, b in v.items()} if isinstance(v, dict) else v * f
         species = [{"label": l, "D": sc(Dm[i], sD)} for i, l in enumerate("ABCD")]
         reactions = [{"eq": r["eq"], "kf": sc(r["kf"], sk), "kr": sc(r["kr"], sk)} for r in rx]
-        shapes = [(4, 3, 2), (3, 2, 3), (4, 3, 3), (2, 3, 4), (3, 4, 3), (5, 1, 2)] if tier == "thorough" else [(4, 3, 2), (3, 2, 3), (4, 3, 3)]
+        shapes = [(4, 3, 2), (3, 2, 3), (4, 3, 3), (2, 3, 4), (3, 4, 3), (3, 3, 4), (3, 4, 5), (5, 1, 2)] if tier == "thorough" else [(4, 3, 2), (3, 2, 3), (4, 3, 3), (3, 4, 3), (3, 3, 4)]
         for (w, h, d) in shapes:
             n = w * h * d
             for bc in ({"x": "periodical", "z": "periodical"}, {}):
